@@ -30,8 +30,9 @@ fn one(rep: &mut Report, b: &[u8]) {
     if let Ok(c) = CStr::from_bytes_until_nul(b) {
         rep.transitions += 3;
         let l = |x: &[u8]| (x.to_vec(), loc(b, x));
-        let (e1, e2, e3) = (l(c.to_bytes()), l(c.to_bytes_with_nul()), c.to_str().map(|s| s.to_string()).map_err(|_| ()));
-        let g = catch(|| (l(kc::to_bytes(c)), l(kc::to_bytes_with_nul(c)), kc::to_str(c).map(|s| s.to_string()).map_err(|_| ())));
+        // to_str is compared as bytes: a returned &str that is not UTF-8 must never be formatted, copied as a String or iterated
+        let (e1, e2, e3) = (l(c.to_bytes()), l(c.to_bytes_with_nul()), c.to_str().map(|s| s.as_bytes().to_vec()).map_err(|_| ()));
+        let g = catch(|| (l(kc::to_bytes(c)), l(kc::to_bytes_with_nul(c)), kc::to_str(c).map(|s| s.as_bytes().to_vec()).map_err(|_| ())));
         if g.as_ref().ok() != Some(&(e1.clone(), e2.clone(), e3.clone())) {
             fail(rep, "to_bytes/to_bytes_with_nul/to_str", format!("{:02x?}", (e1, e2, e3)), format!("{g:02x?}"));
         }
